@@ -43,6 +43,16 @@ def run(name, tests=False):
             if c.returncode == 1:
                 break
         out["caught"] = any(out.get("check_" + t, {}).get("exit") == 1 for t in ("quick", "thorough"))
+        # a change written against one property may break it only through code another property's check is anchored in
+        # (meta["also_checks"]): then that check is the one expected to see it
+        for other in meta.get("also_checks", []):
+            if out["caught"]:
+                break
+            env = dict(os.environ, GCMPY_VERIF_REPO=dst, VMON_NO_EVIDENCE="1")
+            c = sh([os.path.join(HERE, "check"), other, "quick"], env=env)
+            lines = [l for l in c.stdout.splitlines() if l.startswith(("VIOLATION", "   witness"))]
+            out["check_quick_" + other] = {"exit": c.returncode, "first": [l[:300] for l in lines[:2]]}
+            out["caught"] = c.returncode == 1
         return out
     finally:
         shutil.rmtree(scratch, ignore_errors=True)
